@@ -233,7 +233,13 @@ func Run(ctx *core.Ctx) {
 		"listener wrapped and made to return the net package's error objects (EMFILE, ENFILE, EINTR, ECONNABORTED, ECONNRESET, deadline, ETIMEDOUT; net.ErrClosed, EINVAL, a " +
 		"non-net.Error) in scripted sequences between probe requests on fresh connections, both server variants, per error: what it says of itself, retry (and the delay) or " +
 		"return, compared with Model.C12.acceptRun, and real descriptor exhaustion in a child process of its own (RLIMIT_NOFILE lowered, connections held until accept4 " +
-		"fails, released, a fresh client must be served). Every case with a " +
+		"fails, released, a fresh client must be served); the HEADER-VALUE dimension of hostile requests (fields.go): every field the proxy itself reads (Proxy-Authorization, " +
+		"Authorization, Via, X-Forwarded-*, Connection / Upgrade / Proxy-Connection / Keep-Alive / TE / Trailer, Content-Length / Transfer-Encoding, Host, Expect, Range, " +
+		"X-Martian-Terminate-Tls, X-Request-Id, Content-Type and others) x values (empty, SP / HTAB, every Unicode space the header reader lets through, C0 controls, separators " +
+		"only, very long, several field lines, the field's own degenerate forms; Proxy-Authorization: scheme only, scheme + blanks, blanks only, every padding shape of invalid " +
+		"base64, no colon, near misses of the valid value) x GET / POST / CONNECT x plain / TLS / intercepting listener x TCP server / handler variant x proxy instances started " +
+		"with --basic-auth and --credentials (so that the parsers run), plain ones and ones behind an upstream proxy; on the --basic-auth instances the decision is compared with " +
+		"Model.C12.authenticatedGo of the first field value (407 / 400 / 431 / close when it rejects, served when it accepts). Every case with a " +
 		"fault, hostile input or scripted reply is non-trivial; distinct = distinct (kind, path, framing, fault point, FIN/RST, input / reply bytes)")
 	// the corpus: single cases as one batch (ids made distinct), recorded batches as they are
 	var corpus []*Case
@@ -258,7 +264,17 @@ func Run(ctx *core.Ctx) {
 		// development aid: run a slice of the generated cases (handler | host | a kind)
 		var sel []*Case
 		for _, c := range cases {
-			if (only == "handler" && c.Server == "handler") || (only == "host" && strings.HasPrefix(c.What, "host/")) || (only == "log" && c.LogMode != "") || only == c.Kind {
+			if (only == "handler" && c.Server == "handler") || (only == "host" && strings.HasPrefix(c.What, "host/")) || (only == "log" && c.LogMode != "") || (only == "field" && strings.HasPrefix(c.What, "field/")) || only == c.Kind {
+				sel = append(sel, c)
+			}
+		}
+		cases = sel
+	}
+	if os.Getenv("C12_SKIP") == "field" {
+		// development aid: the run without the header-value dimension (to time it)
+		var sel []*Case
+		for _, c := range cases {
+			if !strings.HasPrefix(c.What, "field/") {
 				sel = append(sel, c)
 			}
 		}
